@@ -39,7 +39,10 @@ class FillUpdate(e2.Case):
     def __init__(self, mode, op, reverse):
         self.mode, self.op, self.reverse = mode, op, reverse
         self.name = "%s-%s-%s" % (op, mode, "rev" if reverse else "fwd")
-        self.max_paths = 64
+        self.max_paths = 600
+        # if the code under test needs a rectangle bound as a concrete int (e.g. slice.indices()), explore two values
+        # of it in full rather than enumerating all of them first (the obligation is then reported inconclusive)
+        self.concretize_cap = 2
 
     def run(self, w):
         sdt, sch, bdt, bch = MODES[self.mode]
